@@ -1123,8 +1123,9 @@ class Judge:
 
     def match_block_segment(self, rec, wm, seg, unordered, g):
         try:
-            self.match_sequence(rec, wm, seg, unordered, got=[_clip(g.plain())])
+            self.match_sequence(rec, wm, seg, unordered, got=None)
         except Violation as v:
+            v.witness['got'] = [_clip(g.plain())]
             # inside a block a mismatch is either the method's fault or an
             # ordering fault of the bundle: tell them apart
             all_w = [w for r in self._cur_block_recs if r['raised'] is None
